@@ -60,17 +60,15 @@ def chooseFn (c : Nat) (now : Nat) (e : Ent) : Bool :=
   | 4 => e.umeta % 2 == 0
   | _ => true
 
-/-- producers `0 … pre-1` create their transaction, then the transaction `mid` commits, then
-    the other producers create theirs (`pre = numgo`, `mid` absent: an undisturbed run).
-    Returns the database after the run (read marks begun and done, the commit applied), the
-    read timestamp of every producer, and the commit's output. -/
-def runProducers (d : Db) (kv : List (String × String)) : Db × List Nat × String :=
-  let numGo := argNat kv "numgo" 1
-  let pre := argNat kv "pre" numGo
+/-- `Stream.beginRun`: outside managed mode ONE read-only transaction is created when the run
+    starts and held until it ends; every producer reads at its timestamp. The transaction `mid`
+    (if any) commits while the run is in progress (`pre` only says after how many producers have
+    started: it no longer matters). Returns the database after the run (read mark begun and done
+    once, the commit applied), the read timestamp of the run, and the commit's output. -/
+def runProducers (d : Db) (kv : List (String × String)) : Db × Nat × String :=
   let atTs := argNat kv "at" 0
   let rts0 := if d.opts.managed then atTs else d.nextTs - 1
-  let d := if d.opts.managed then d else
-    { d with readMark := (List.range (min pre numGo)).foldl (fun w _ => w.begin rts0) d.readMark }
+  let d := if d.opts.managed then d else { d with readMark := d.readMark.begin rts0 }
   let (d, midOut) :=
     if argStr kv "mid" == "" then (d, "-") else
     let (d, r) := d.commit (argNat kv "mid" 0) (argNat kv "cts" 0)
@@ -79,16 +77,8 @@ def runProducers (d : Db) (kv : List (String × String)) : Db × List Nat × Str
       | .noop => "noop"
       | .conflict => "conflict"
       | .err s => s)
-  let rts1 := if d.opts.managed then atTs else d.nextTs - 1
-  let d := if d.opts.managed then d else
-    { d with readMark := (List.range (numGo - min pre numGo)).foldl (fun w _ => w.begin rts1) d.readMark }
-  -- every producer discards its transaction at the end
-  let d := if d.opts.managed then d else
-    let w := (List.range (min pre numGo)).foldl (fun w _ => w.done rts0) d.readMark
-    let w := (List.range (numGo - min pre numGo)).foldl (fun w _ => w.done rts1) w
-    { d with readMark := w }
-  let rts := (List.range numGo).map (fun i => if i < pre then rts0 else rts1)
-  (d, rts, midOut)
+  let d := if d.opts.managed then d else { d with readMark := d.readMark.done rts0 }
+  (d, rts0, midOut)
 
 def streamRanges (kv : List (String × String)) : List KeyRange :=
   splitRanges (hexList (argStr kv "splits"))
@@ -103,6 +93,31 @@ def reopenLevels : List (List Tbl) → List (List Tbl)
   | l0 :: rest => l0.foldr insertById [] :: rest.map sortBySmallest
 
 def maxVerOfLsm (l : Lsm) : Nat := l.allEntries.foldl (fun m e => if m < e.ver then e.ver else m) 0
+
+/-- the `ok discard=… overlap=…` answer of the mvcc driver for a `compact` line (same parsing). -/
+def compactOkLine (d : Db) (rest : List String) : String :=
+  let kv := kvArgs rest
+  let thisL := argNat kv "this" 0
+  let nextL := argNat kv "next" 0
+  let idxOf (lvl : Nat) (id : Nat) : Option Nat :=
+    ((zipIdx (d.lsm.levels.getD lvl [])).find? (fun (_, t) => t.id == id)).map (·.1)
+  let top := (natList (argStr kv "top")).filterMap (idxOf thisL)
+  let bot := (natList (argStr kv "bot")).filterMap (idxOf nextL)
+  let news := (if argStr kv "new" == "" then [] else (argStr kv "new").splitOn ",").filterMap (fun w =>
+    match w.splitOn ":" with
+    | [i, c] => match i.toNat?, c.toNat? with
+      | some i, some c => some (i, c)
+      | _, _ => none
+    | _ => none)
+  let cd : CompactDef := {
+    thisLevel := thisL, nextLevel := nextL, top, bot,
+    outSizes := news.map (·.2), outIds := news.map (·.1), dropPrefixes := hexList (argStr kv "drop") }
+  let dtsModel := d.discardAtOrBelow
+  let dts := match (kv.find? (·.1 == "lag")).bind (·.2.toNat?) with
+    | some n => if n ≤ dtsModel then n else dtsModel
+    | none => dtsModel
+  let (_, ov) := compactOutput d.lsm cd dts d.opts.numKeep d.now
+  s!"ok discard={dts} overlap={if ov then 1 else 0}"
 
 def streamStep (s : StreamDrv) (line : String) : StreamDrv × String :=
   match words line with
@@ -134,10 +149,7 @@ def streamStep (s : StreamDrv) (line : String) : StreamDrv × String :=
       toListCfg d.opts.numKeep d.now ((fromHex (argStr kv "prefix")).getD []) (argNat kv "since" 0)
         (chooseFn (argNat kv "choose" 0) d.now)
     let ranges := streamRanges kv
-    -- range i is read by producer i (the harness starts at least as many producers as ranges
-    -- whenever the producers' timestamps differ)
-    let rtsR := (List.range ranges.length).map (fun i => rts.getD i (rts.getLastD 0))
-    let out := streamRun (mergeAll d.lsm.sources) cfg d.now ranges rtsR
+    let out := streamRun (mergeAll d.lsm.sources) cfg d.now ranges rts
     let doneN := if argBool kv "done" then ranges.length else 0
     (s.setDb d, s!"ok mid={midOut} done={doneN} " ++ fmtLists out)
   | "backup" :: rest =>
@@ -145,10 +157,9 @@ def streamStep (s : StreamDrv) (line : String) : StreamDrv × String :=
     let d := s.db
     let (d, rts, midOut) := runProducers d kv
     let ranges := streamRanges kv
-    let rtsR := (List.range ranges.length).map (fun i => rts.getD i (rts.getLastD 0))
     let since := argNat kv "since" 0
     let out := backupRun (mergeAll d.lsm.sources) ((fromHex (argStr kv "prefix")).getD []) since
-      (argNat kv "sincets" since) d.now ranges rtsR
+      (argNat kv "sincets" since) d.now ranges rts
     let b := argNat kv "buf" 0
     ({ (s.setDb d) with backups := (b, out) :: s.backups.filter (·.1 != b) },
       s!"ok mid={midOut} max={out.maxVersion} " ++ fmtLists out.lists)
@@ -200,6 +211,16 @@ def streamStep (s : StreamDrv) (line : String) : StreamDrv × String :=
   | "stream-race" :: _ => (s, "ok")
   | _ =>
     let (d, o) := mvccStep s.db line
+    -- The mvcc driver applies a compaction but answers `invalid-choice … jumps over a non-empty
+    -- level` when L0 is compacted to a base level below a non-empty level: no production picker
+    -- produces that in a state badger itself built. After StreamWriter.PrepareIncremental such
+    -- states exist (tables at prevLevel-1, above the base level: finding F20) and the production
+    -- picker does take that step, so here the line is answered like any other compaction.
+    let o := match words line with
+      | "compact" :: rest =>
+        if o.startsWith "invalid-choice" && (o.splitOn "jumps over a non-empty level").length > 1
+        then compactOkLine s.db rest else o
+      | _ => o
     (s.setDb d, o)
 
 end Badger.Driver
